@@ -807,3 +807,32 @@ pub mod completion {
     }
   }
 }
+
+/// Verification hooks for property C10 (dependency graph on parsed modules, bookkeeping maps).
+#[cfg(samlang_verif)]
+pub mod verif_hooks_c10 {
+  use samlang_ast::source::Module;
+  use samlang_heap::ModuleReference;
+  use std::collections::HashMap;
+
+  /// `DependencyGraph::new(sources).affected_set(dirty)`
+  pub fn affected_set(
+    sources: &HashMap<ModuleReference, Module<()>>,
+    dirty: Vec<ModuleReference>,
+  ) -> Vec<ModuleReference> {
+    crate::dep_graph::DependencyGraph::new(sources)
+      .affected_set(dirty.into_iter().collect())
+      .into_iter()
+      .collect()
+  }
+
+  /// Keys of `parsed_modules` and of `checked_modules`.
+  pub fn module_maps(
+    state: &crate::server_state::ServerState,
+  ) -> (Vec<ModuleReference>, Vec<ModuleReference>) {
+    (
+      state.parsed_modules.keys().copied().collect(),
+      state.checked_modules.keys().copied().collect(),
+    )
+  }
+}
